@@ -246,4 +246,39 @@ harnesses! {
     #[kani::stub(core::slice::memchr::memrchr, crate::env::memrchr_stub)]
     #[kani::stub(core::str::count::count_chars, crate::env::count_chars_stub)]
     fn c19_roundtrip_n8(nd) { roundtrip_body::<_, 8>(nd) }
+    #[kani::unwind(10)]
+    #[kani::stub(core::slice::memchr::memchr, crate::env::memchr_stub)]
+    #[kani::stub(core::slice::memchr::memrchr, crate::env::memrchr_stub)]
+    #[kani::stub(core::str::count::count_chars, crate::env::count_chars_stub)]
+    fn c19_monotone_n8(nd) { monotone_body::<_, 8>(nd) }
+    #[kani::unwind(10)]
+    #[kani::stub(core::slice::memchr::memchr, crate::env::memchr_stub)]
+    #[kani::stub(core::slice::memchr::memrchr, crate::env::memrchr_stub)]
+    #[kani::stub(core::str::count::count_chars, crate::env::count_chars_stub)]
+    fn c19_position_n8(nd) { position_body::<_, 8>(nd) }
+    #[kani::unwind(10)]
+    #[kani::stub(core::slice::memchr::memchr, crate::env::memchr_stub)]
+    #[kani::stub(core::slice::memchr::memrchr, crate::env::memrchr_stub)]
+    #[kani::stub(core::str::count::count_chars, crate::env::count_chars_stub)]
+    fn c19_span_n8(nd) { span_body::<_, 8>(nd) }
+    #[kani::unwind(12)]
+    #[kani::stub(core::slice::memchr::memchr, crate::env::memchr_stub)]
+    #[kani::stub(core::slice::memchr::memrchr, crate::env::memrchr_stub)]
+    #[kani::stub(core::str::count::count_chars, crate::env::count_chars_stub)]
+    fn c19_roundtrip_n10(nd) { roundtrip_body::<_, 10>(nd) }
+    #[kani::unwind(12)]
+    #[kani::stub(core::slice::memchr::memchr, crate::env::memchr_stub)]
+    #[kani::stub(core::slice::memchr::memrchr, crate::env::memrchr_stub)]
+    #[kani::stub(core::str::count::count_chars, crate::env::count_chars_stub)]
+    fn c19_monotone_n10(nd) { monotone_body::<_, 10>(nd) }
+    #[kani::unwind(12)]
+    #[kani::stub(core::slice::memchr::memchr, crate::env::memchr_stub)]
+    #[kani::stub(core::slice::memchr::memrchr, crate::env::memrchr_stub)]
+    #[kani::stub(core::str::count::count_chars, crate::env::count_chars_stub)]
+    fn c19_span_n10(nd) { span_body::<_, 10>(nd) }
+    #[kani::unwind(14)]
+    #[kani::stub(core::slice::memchr::memchr, crate::env::memchr_stub)]
+    #[kani::stub(core::slice::memchr::memrchr, crate::env::memrchr_stub)]
+    #[kani::stub(core::str::count::count_chars, crate::env::count_chars_stub)]
+    fn c19_roundtrip_n12(nd) { roundtrip_body::<_, 12>(nd) }
 }
